@@ -77,7 +77,13 @@ func crawlProp(level, rule string, q, th int, o scen.CrawlOpts) *propDef {
 			if tier == "thorough" && oo.MaxSeeds < 12 {
 				oo.MaxSeeds += 4
 			}
-			return scen.GenCrawl(t, oo)
+			sc := scen.GenCrawl(t, oo)
+			if o.Prop == "C02" && i%3 == 1 {
+				// a WARC writer that lags behind everything else: "captured before finished" must hold against it
+				// (as a whole, or a pseudo-random fifth of the individual writes while the others proceed)
+				sc.Sched.Slow, sc.Sched.SlowDiv = []string{"warc.write", "~0", "~1", "~2", "~3", "~4"}[(i/3)%6], []int{8, 64}[(i/18)%2]
+			}
+			return sc
 		}}
 }
 
@@ -104,10 +110,10 @@ const crawlRule = "one case = one generated scenario (Zeno configuration, simula
 var props = map[string]*propDef{}
 
 func init() {
-	props["C01"] = crawlProp("exploration", crawlRule, 160, 6000, scen.CrawlOpts{Prop: "C01", MinSeeds: 1, MaxSeeds: 8, Faults: true, Hops: true, Adversarial: true})
-	props["C02"] = crawlProp("exploration", crawlRule, 160, 6000, scen.CrawlOpts{Prop: "C02", MinSeeds: 1, MaxSeeds: 6, Faults: true, BodyVariety: true})
-	c06crawl := crawlProp("exploration", crawlRule, 160, 6000, scen.CrawlOpts{Prop: "C06", MinSeeds: 1, MaxSeeds: 6, Faults: true, Hops: true, Adversarial: true})
-	props["C06"] = &propDef{level: "exploration", rule: crawlRule + "; every fourth case crawls generated JSON / XML / RSS / sitemap / M3U8 documents instead, whose links must be queued with the parent's hops + 1", assumptions: e2eAssumptions, components: e2eComponents, quickRuns: 200, thorRuns: 8000,
+	props["C01"] = crawlProp("exploration", crawlRule, 480, 18000, scen.CrawlOpts{Prop: "C01", MinSeeds: 1, MaxSeeds: 8, Faults: true, Hops: true, Adversarial: true})
+	props["C02"] = crawlProp("exploration", crawlRule, 480, 18000, scen.CrawlOpts{Prop: "C02", MinSeeds: 1, MaxSeeds: 6, Faults: true, BodyVariety: true})
+	c06crawl := crawlProp("exploration", crawlRule, 480, 18000, scen.CrawlOpts{Prop: "C06", MinSeeds: 1, MaxSeeds: 6, Faults: true, Hops: true, Adversarial: true})
+	props["C06"] = &propDef{level: "exploration", rule: crawlRule + "; every fourth case crawls generated JSON / XML / RSS / sitemap / M3U8 documents instead, whose links must be queued with the parent's hops + 1", assumptions: e2eAssumptions, components: e2eComponents, quickRuns: 600, thorRuns: 24000,
 		gen: func(t *scen.Tape, i int, tier string) *scen.Scenario {
 			if i%4 == 3 {
 				sc := scen.GenDocs(t, false)
@@ -119,7 +125,7 @@ func init() {
 			}
 			return c06crawl.gen(t, i, tier)
 		}}
-	props["C05"] = &propDef{level: "exploration", rule: "one case = one generated (filter set, web site) pair: include/exclude host, string and regex filters x URL texts (absolute, upper-case, scheme-relative, userinfo, explicit port, fragment, other schemes, loopback, dot-less, archive.org) planted as seeds, redirect targets and assets, run under one seeded schedule; every request and every dial that reaches the simulated network is judged by a reference scope predicate; distinct/non-trivial as for C01", assumptions: append([]string{"the deciding power is the generator of URL texts x filters; schedules add little for this property (stated in DESIGN.md)"}, e2eAssumptions...), components: e2eComponents, quickRuns: 240, thorRuns: 8000,
+	props["C05"] = &propDef{level: "exploration", rule: "one case = one generated (filter set, web site) pair: include/exclude host, string and regex filters x URL texts (absolute, upper-case, scheme-relative, userinfo, explicit port, fragment, other schemes, loopback, dot-less, archive.org) planted as seeds, redirect targets and assets, run under one seeded schedule; every request and every dial that reaches the simulated network is judged by a reference scope predicate; distinct/non-trivial as for C01", assumptions: append([]string{"the deciding power is the generator of URL texts x filters; schedules add little for this property (stated in DESIGN.md)"}, e2eAssumptions...), components: e2eComponents, quickRuns: 720, thorRuns: 24000,
 		gen: func(t *scen.Tape, i int, tier string) *scen.Scenario {
 			if i%4 == 3 {
 				sc := scen.GenCrawl(t, scen.CrawlOpts{Prop: "C05", MinSeeds: 2, MaxSeeds: 6, Adversarial: true, Hops: true})
@@ -127,13 +133,13 @@ func init() {
 			}
 			return scen.GenScope(t)
 		}}
-	props["C07"] = &propDef{level: "exploration", rule: "one case = 1-3 generated HTML documents (embedding attribute x quoting x reference form x nesting x decoy text) with settings of disable-html-tag / capture-alternate-pages / disable-assets-capture / max-hops, crawled end to end under one seeded schedule; planted requisites (resolved by net/url against the page URL) must appear in the origin log before the page's seed is finished, anchors must be handed to the queue; distinct/non-trivial as for C01", assumptions: append([]string{"completeness over documents is sampled by the generator; the simulator contributes the end-to-end observation (extraction, feedback pass, normalisation, scope, fetch)"}, e2eAssumptions...), components: e2eComponents, quickRuns: 200, thorRuns: 8000,
+	props["C07"] = &propDef{level: "exploration", rule: "one case = 1-3 generated HTML documents (embedding attribute x quoting x reference form x nesting x decoy text) with settings of disable-html-tag / capture-alternate-pages / disable-assets-capture / max-hops, crawled end to end under one seeded schedule; planted requisites (resolved by net/url against the page URL) must appear in the origin log before the page's seed is finished, anchors must be handed to the queue; distinct/non-trivial as for C01", assumptions: append([]string{"completeness over documents is sampled by the generator; the simulator contributes the end-to-end observation (extraction, feedback pass, normalisation, scope, fetch)"}, e2eAssumptions...), components: e2eComponents, quickRuns: 600, thorRuns: 24000,
 		gen: func(t *scen.Tape, i int, tier string) *scen.Scenario { return scen.GenHTML(t) }}
-	props["C11x"] = crawlProp("exploration", crawlRule+"; at every stage boundary the item tree handed to the hook is re-checked for well-formedness with public getters, and at the finisher's decision 'complete' is compared with 'no node awaits fetching or post-processing'", 200, 8000, scen.CrawlOpts{Prop: "C11", MinSeeds: 1, MaxSeeds: 8, Faults: true, Hops: true, Adversarial: true})
-	props["C17x"] = crawlProp("exploration", crawlRule+"; at idle and after stop the metrics (total URLs crawled, finished seeds, worker gauges, mean response time) are compared with ground truth counted from hook events", 200, 6000, scen.CrawlOpts{Prop: "C17", MinSeeds: 1, MaxSeeds: 8, Faults: true, Hops: true})
-	props["C08x"] = crawlProp("exploration", crawlRule+"; every seen-store check is judged against a reference model of completed records (stamped with scheduler steps)", 200, 6000, scen.CrawlOpts{Prop: "C08", MinSeeds: 2, MaxSeeds: 8, Faults: false, Hops: true, Adversarial: true})
-	props["C09x"] = crawlProp("exploration", crawlRule+"; every canonical URL that flows through a crawl is re-rendered under other map-iteration orders, re-normalised and shape-checked", 200, 6000, scen.CrawlOpts{Prop: "C09", MinSeeds: 2, MaxSeeds: 8, Hops: true, Adversarial: true})
-	props["C12"] = &propDef{level: "exploration", assumptions: compAssumptions, quickRuns: 32, thorRuns: 600,
+	props["C11x"] = crawlProp("exploration", crawlRule+"; at every stage boundary the item tree handed to the hook is re-checked for well-formedness with public getters, and at the finisher's decision 'complete' is compared with 'no node awaits fetching or post-processing'", 600, 24000, scen.CrawlOpts{Prop: "C11", MinSeeds: 1, MaxSeeds: 8, Faults: true, Hops: true, Adversarial: true})
+	props["C17x"] = crawlProp("exploration", crawlRule+"; at idle and after stop the metrics (total URLs crawled, finished seeds, worker gauges, mean response time) are compared with ground truth counted from hook events", 600, 18000, scen.CrawlOpts{Prop: "C17", MinSeeds: 1, MaxSeeds: 8, Faults: true, Hops: true})
+	props["C08x"] = crawlProp("exploration", crawlRule+"; every seen-store check is judged against a reference model of completed records (stamped with scheduler steps)", 600, 18000, scen.CrawlOpts{Prop: "C08", MinSeeds: 2, MaxSeeds: 8, Faults: false, Hops: true, Adversarial: true})
+	props["C09x"] = crawlProp("exploration", crawlRule+"; every canonical URL that flows through a crawl is re-rendered under other map-iteration orders, re-normalised and shape-checked", 600, 18000, scen.CrawlOpts{Prop: "C09", MinSeeds: 2, MaxSeeds: 8, Hops: true, Adversarial: true})
+	props["C12"] = &propDef{level: "exploration", assumptions: compAssumptions, quickRuns: 96, thorRuns: 1800,
 		components: map[string]string{"internal/pkg/reactor": "real code with hook points (build tag verif)", "producers, consumers, freeze controller": "simulated client actors", "scheduler, select tie-breaks": "owned by the simulator"},
 		rule:       "one case = one bubble: 1-5 tokens, 1-3 producers, 1-3 consumers (answering each delivered seed with finish, repeated finish, feedback, or feedback for an unknown id), optional freeze at a scheduled point; all operations, schedule decisions and select tie-breaks drawn from one tape; distinct = distinct event-log hash; every case interleaves >= 2 actors, so all count as non-trivial",
 		planFn: func(p *propDef, tier string, seed uint64, n int) []*Case {
@@ -145,7 +151,7 @@ func init() {
 			}
 			return cases
 		}}
-	props["C14"] = &propDef{level: "exploration", assumptions: compAssumptions, quickRuns: 32, thorRuns: 600,
+	props["C14"] = &propDef{level: "exploration", assumptions: compAssumptions, quickRuns: 96, thorRuns: 1800,
 		components: map[string]string{"internal/pkg/controler/pause": "real code with hook points", "subscribers": "simulated workers with the shape of the stage worker loops (the real loops run in the pipeline engine, where C03's stop/pause enumeration exercises them)", "controllers (disk watchdog, WARC-queue watchdog, operator)": "simulated actors issuing matched and unmatched Pause/Resume sequences", "scheduler, select tie-breaks": "owned by the simulator"},
 		rule:       "one case = one bubble: 1-5 subscribers (some exiting early), 1-3 independent controllers each running a script over {pause, resume} (matched, repeated, unmatched), a feeder offering work, then shutdown; all choices from one tape; distinct = distinct event-log hash; all cases interleave >= 3 actors",
 		planFn: func(p *propDef, tier string, seed uint64, n int) []*Case {
@@ -164,7 +170,7 @@ func init() {
 			}
 			return cases
 		}}
-	props["C13"] = &propDef{level: "exploration", assumptions: append([]string{"the window bound is evaluated on release instants of the fake clock with an absolute tolerance of 1e-6 tokens (the limiter accumulates float64 tokens)", "per-host state is only checked while the host keeps its bucket: runs of the class 'evict' (more hosts than buckets, short clean-up period) are explored for crashes/hangs only"}, compAssumptions...), quickRuns: 32, thorRuns: 600,
+	props["C13"] = &propDef{level: "exploration", assumptions: append([]string{"the window bound is evaluated on release instants of the fake clock with an absolute tolerance of 1e-6 tokens (the limiter accumulates float64 tokens)", "per-host state is only checked while the host keeps its bucket: runs of the class 'evict' (more hosts than buckets, short clean-up period) are explored for crashes/hangs only"}, compAssumptions...), quickRuns: 96, thorRuns: 1800,
 		components: map[string]string{"internal/pkg/archiver/ratelimiter": "real code with hook points, real time package on the synctest fake clock", "waiters / reporters": "simulated actors"},
 		rule:       "one case = one bubble: capacity in {1,2,5,20,150}, configured rate in {0.05..50}/s, 1-3 hosts, 1-4 concurrent waiters doing sequences of acquire / failure(429,403,408,425,500,503) / success with gaps from 0 to 10 simulated minutes, plus a class with failure streaks of 30-80; distinct = distinct event-log hash",
 		planFn: func(p *propDef, tier string, seed uint64, n int) []*Case {
@@ -172,7 +178,7 @@ func init() {
 		}}
 	c09crawl := props["C09x"]
 	delete(props, "C09x")
-	props["C09"] = &propDef{level: "exploration", quickRuns: 60, thorRuns: 2000,
+	props["C09"] = &propDef{level: "exploration", quickRuns: 180, thorRuns: 6000,
 		assumptions: append([]string{"only the determinism clause is decided by simulation proper (the simulator owns map iteration order through the runtime overlay); idempotence, shape, relative resolution and query order are sampled by the URL grammar, with no claim of input-space coverage beyond the counts reported"}, e2eAssumptions...),
 		components:  map[string]string{"internal/pkg/preprocessor.NormalizeURL, pkg/models.URL (String/URLToString/encodeQuery), goada (WHATWG parser, cgo)": "real", "map iteration order": "owned by the simulator (runtime overlay, SimSetBias)", "pipeline cases": "as for C01"},
 		rule:        "component cases: one bubble = 12-24 (URL text, parent) pairs from a grammar (schemes, hosts incl. IDN/ports/userinfo/loopback, paths with dot segments and escapes, well-formed and malformed queries, fragments, quotes, relative references), each normalised in fresh objects under 7 different simulator-chosen map iteration orders, re-normalised, shape-checked, compared with net/url reference resolution and with the original parameter order; pipeline cases: as for C01 with every canonical URL cross-checked; distinct = distinct event-log hash (pipeline) or distinct tape (component)",
@@ -186,7 +192,7 @@ func init() {
 		}}
 	c08crawl := props["C08x"]
 	delete(props, "C08x")
-	props["C08"] = &propDef{level: "exploration", quickRuns: 120, thorRuns: 4000, assumptions: append([]string{"crawl-HQ seencheck is exercised by the HQ cases of C15; this check covers the local seen-store"}, e2eAssumptions...),
+	props["C08"] = &propDef{level: "exploration", quickRuns: 360, thorRuns: 12000, assumptions: append([]string{"crawl-HQ seencheck is exercised by the HQ cases of C15; this check covers the local seen-store"}, e2eAssumptions...),
 		components: map[string]string{"internal/pkg/preprocessor/seencheck (real leveldb store in a scratch directory)": "real", "checkers": "component cases: 2-4 simulated preprocess-shaped actors; pipeline cases: the real preprocessor workers", "pkg/models (DedupeItems, URL.String)": "real"},
 		rule:       "component cases: one bubble = 2-4 concurrent checkers running SeencheckItem on trees (seed, assets, redirect target) drawn from a pool of overlapping URL texts (case variants, permuted and repeated query parameters, equivalent escapes), scheduled at the hook points around lookup and record; pipeline cases: as for C01; every check is judged against a reference set of completed records stamped with scheduler steps; distinct = distinct event-log hash",
 		planFn: func(p *propDef, tier string, seed uint64, n int) []*Case {
@@ -221,7 +227,7 @@ func init() {
 			}
 			return cases
 		}}
-	props["C18"] = &propDef{level: "exploration", quickRuns: 100, thorRuns: 3000,
+	props["C18"] = &propDef{level: "exploration", quickRuns: 300, thorRuns: 9000,
 		assumptions: append([]string{"the temporal behaviour (pause at the first tick below the threshold, resume at the first tick at or above it) is what the simulation decides, with the real watcher loop on the fake clock and a seeded free-space history behind the statfs seam; threshold arithmetic is sampled by a boundary-biased generator over what statfs can report (blocks x block size), no exhaustiveness claimed", "start-up refusal is checked through watchers.CheckDiskUsage, the call startPipeline makes before anything else"}, e2eAssumptions...),
 		components:  map[string]string{"internal/pkg/controler/watchers (CheckDiskUsage, WatchDiskSpace loop)": "real", "statfs(2) result": "stub behind the verifhook.Statfs seam", "pipeline cases": "as for C01, plus the pause manager and the real stage workers"},
 		rule:        "component cases: one bubble = 40-80 (total, min-space) settings x ~8 free-space values biased to the exact threshold +-2 blocks, 0, total and the 256 GiB boundary, decision compared with exact rational arithmetic, plus monotonicity on every pair; pipeline cases: crawl scenarios with a free-space history that crosses the threshold, every tick verdict and every pause/resume of the watchdog judged; distinct as for C09",
@@ -236,7 +242,7 @@ func init() {
 			}
 			return cases
 		}}
-	props["C15"] = &propDef{level: "fault_enumeration", quickRuns: 160, thorRuns: 5000,
+	props["C15"] = &propDef{level: "fault_enumeration", quickRuns: 480, thorRuns: 15000,
 		assumptions: append([]string{"crawl HQ is a simulated stateful service (URL table, seencheck set, websocket sink); a fault plan assigns to the k-th call of each kind one of {ok, 500, reset before apply, reset after apply, timeout}; duplicates at HQ are accepted only when some call was applied and then lost", "deliveries still pending when the crawl is stopped are outside the statement ('while the crawler keeps running')"}, e2eAssumptions...),
 		components:  map[string]string{"internal/pkg/source/hq (consumer, producer, finisher, seencheck, websocket), internal/pkg/source/lq": "real code with hook points", "github.com/internetarchive/gocrawlhq v1.2.31": "real, patched copy with a websocket dial seam; REST through a replaced http.DefaultTransport", "crawl HQ": "simulated service with per-call fault plan", "rest of the pipeline": "as for C01"},
 		rule:        "one case = one crawl with outlinks (max-hops 1-2) against either the simulated crawl HQ with a generated per-call fault sequence (5xx, reset before/after apply, timeout) over add/delete/get/seencheck calls and batch sizes 1-4, or the local sqlite queue; conservation of (text, via, hops) and of finish ids between what the pipeline emitted and what the queue applied is checked once the crawl is idle; distinct/non-trivial as for C01",
@@ -249,12 +255,12 @@ func init() {
 			}
 			return sc
 		}}
-	props["C19"] = &propDef{level: "exploration", quickRuns: 160, thorRuns: 5000,
+	props["C19"] = &propDef{level: "exploration", quickRuns: 480, thorRuns: 15000,
 		assumptions: append([]string{"the bucket walk is a multi-request history against a stateful simulated S3-style service through queue -> seed -> fetch; completeness over documents is sampled by the generator (URLs planted by construction)", "object URLs are https: the simulated origin does not speak TLS, so objects themselves are queued but fail to download (max-retry 0); the property speaks of queueing"}, e2eAssumptions...),
 		components:  e2eComponents,
 		rule:        "one case = either 1-3 generated JSON / XML / RSS / sitemap / M3U8 documents (as seed or as an asset of a page) with URLs planted at several nesting depths, in attributes, text, CDATA, JSON-in-string and escaped forms, or one S3-style bucket (1-22 keys in prefix trees, zero-size keys, page size 1-7, marker or continuation-token API, with or without delimiter, four Server header variants) walked to the end; distinct/non-trivial as for C01",
 		gen:         func(t *scen.Tape, i int, tier string) *scen.Scenario { return scen.GenDocs(t, i%2 == 1) }}
-	props["C10"] = &propDef{level: "exploration", quickRuns: 240, thorRuns: 12000,
+	props["C10"] = &propDef{level: "exploration", quickRuns: 720, thorRuns: 36000,
 		assumptions: append([]string{"the origin is the adversary: structure-aware samples per declared type (HTML, JSON, XML, sitemap, S3 listing, M3U8, PDF, plain text) damaged by generic mutations, plus hostile Location / Link / Content-Type / Content-Encoding headers and lying lengths; coverage-guided fuzzing of the extractors would dig deeper per CPU hour but is another technique", "a process crash (Go panic / fatal error) anywhere in the crawler, a goroutine still running inside input processing when the wall-clock limit expires, or damage spreading to well-behaved seeds are violations; a watchdog expiry without such a goroutine is reported as infrastructure failure, not as a violation"}, e2eAssumptions...),
 		components:  e2eComponents,
 		rule:        "one case = 1-4 hostile documents (as seed or as asset of a page) next to 1-2 well-behaved bystander seeds, crawled end to end under one seeded schedule; distinct/non-trivial as for C01",
@@ -266,7 +272,7 @@ func init() {
 		}}
 	c17crawl := props["C17x"]
 	delete(props, "C17x")
-	props["C17"] = &propDef{level: "exploration", quickRuns: 120, thorRuns: 4000,
+	props["C17"] = &propDef{level: "exploration", quickRuns: 360, thorRuns: 12000,
 		assumptions: append([]string{"component cases run a copy of /repo/internal/pkg/stats that vcheck re-generates on every invocation with a go/ast rewriter: a scheduling point before every statement, non-atomic read-modify-write on fields split into load / yield / store, sync.Mutex replaced by a simulator-aware mutex; this exposes lost updates and torn multi-step sequences at statement level, not hardware reordering or the atomicity of a single atomic instruction", "totals, gauges and means are compared after the burst (quiescent end state), as the statement says"}, e2eAssumptions...),
 		components:  map[string]string{"internal/pkg/stats": "component cases: statement-level instrumented copy generated from /repo; pipeline cases: the real package", "clients": "component cases: 2-6 simulated goroutines issuing incr / decr / add / read / reset; pipeline cases: the real stage workers"},
 		rule:        "component cases: one bubble = 2-6 concurrent clients x 2-8 operations each over {URLs crawled, seeds finished, worker gauges (balanced incr/decr), per-status counters, mean samples, reads, window resets}, every statement boundary a scheduling decision, end state compared with a sequential model; pipeline cases: as for C01 with metrics compared with hook-counted ground truth at idle and after stop; distinct = distinct event-log hash",
@@ -290,7 +296,7 @@ func init() {
 		}}
 	c11crawl := props["C11x"]
 	delete(props, "C11x")
-	props["C11"] = &propDef{level: "exploration", quickRuns: 160, thorRuns: 6000, assumptions: append([]string{"component cases generate pipeline-shaped trees (duplicates only among childless nodes, internal nodes in GotChildren / GotRedirected, trees the model's own CheckConsistency accepts); exhaustive small-scope enumeration of all trees x statuses would be bounded model checking, another technique"}, e2eAssumptions...),
+	props["C11"] = &propDef{level: "exploration", quickRuns: 480, thorRuns: 18000, assumptions: append([]string{"component cases generate pipeline-shaped trees (duplicates only among childless nodes, internal nodes in GotChildren / GotRedirected, trees the model's own CheckConsistency accepts); exhaustive small-scope enumeration of all trees x statuses would be bounded model checking, another technique"}, e2eAssumptions...),
 		components: map[string]string{"pkg/models (Item tree, DedupeItems, CompleteAndCheck, markCompleted)": "real", "pipeline cases": "as for C01, monitor at every stage boundary"},
 		rule:       "component cases: one bubble = 6-15 random trees of up to 20 nodes (URLs from a pool of 7, so duplicates are frequent; leaf statuses over all eight states), each de-duplicated and completion-marked, with uniqueness / no-URL-lost / well-formedness / 'complete iff nothing pending' re-stated independently through public getters; pipeline cases: as for C01 with the same monitor at every stage boundary; distinct as for C09",
 		planFn: func(p *propDef, tier string, seed uint64, n int) []*Case {
